@@ -381,6 +381,10 @@ def build_native(profile='dev', quiet=True):
     env.pop('RUSTFLAGS', None)
     tdir = os.environ.get('VERIF_NATIVE_TARGET', os.path.join(NATIVE_DIR, 'target'))
     env['CARGO_TARGET_DIR'] = tdir
+    if profile == 'hooks':
+        env['RUSTFLAGS'] = '--cfg manuel_woelker_rust_vfs_verif'
+        tdir = tdir + '-hooks'
+        env['CARGO_TARGET_DIR'] = tdir
     cmd = ['cargo', 'build', '--offline'] + (['--release'] if profile == 'release' else [])
     r = subprocess.run(cmd, cwd=NATIVE_DIR, env=env, capture_output=True, text=True)
     if r.returncode != 0:
